@@ -719,7 +719,13 @@ func (c *Contracts) parseContractFile(path, pkgPath string) error {
 			name := rest
 			cur = &FuncSpec{Pkg: pkgPath, Name: name, Extern: kw == "extern", Loops: map[int]*LoopSpec{}, File: path, Line: l.n, ParamSpecs: map[string]*ParamSpec{}}
 			key := pkgPath + "::" + name
-			if kw == "extern" {
+			if kw == "extern" && strings.HasPrefix(name, "local ") {
+				// "extern local <callee>": an assumed contract that holds for the calls made from this
+				// package only (other packages calling the same function do not see it)
+				name = strings.TrimSpace(name[len("local "):])
+				cur.Name = name
+				key = "externlocal::" + pkgPath + "::" + name
+			} else if kw == "extern" {
 				key = "extern::" + name
 				if old, ok := c.Funcs[key]; ok {
 					// identical extern declarations in several packages are merged (first wins)
